@@ -11,9 +11,8 @@ def main():
         mp = os.path.join(sd, d, 'meta.json')
         if not os.path.exists(mp):
             continue
-        prop = json.load(open(mp))['property']
-        if d == 'C15-r5-m3':
-            prop = 'C18'  # concurrency-only change: outside C15's quantifier (see its meta.json)
+        meta = json.load(open(mp))
+        prop = meta.get('reported_by', meta['property'])  # differs for changes outside their property's subject or quantifier (see meta.json)
         res = []
         for s in seeds:
             env = dict(os.environ, VERIF_SEED=s)
@@ -23,7 +22,7 @@ def main():
         rows.append((d, prop, res))
         print(d, prop, res, flush=True)
     with open(os.path.join(sd, 'RELIABILITY.md'), 'w') as f:
-        f.write('# Detection reliability of the quick tier across seeds\n\nEvery seeded change against the check of its own property (`bin/check <property>` quick tier, full budget) for VERIF_SEED = %s.\n1 = VIOLATION reported, 0 = missed with this seed, 2 = infrastructure problem.\n\n' % ', '.join(seeds))
+        f.write('# Detection reliability of the quick tier across seeds\n\nEvery seeded change against the check that reports it (`reported_by` in its meta.json: the check of its own property, except for tool-only, fault-only and concurrency-only changes) (`bin/check <property>` quick tier, full budget) for VERIF_SEED = %s.\n1 = VIOLATION reported, 0 = missed with this seed, 2 = infrastructure problem.\n\n' % ', '.join(seeds))
         f.write('| seeded change | check | ' + ' | '.join('seed ' + s for s in seeds) + ' |\n|---|---|' + '---|' * len(seeds) + '\n')
         for d, prop, res in rows:
             f.write('| %s | %s | ' % (d, prop) + ' | '.join(str(x[1]) for x in res) + ' |\n')
